@@ -57,6 +57,10 @@ def run_shape(plan, shape, parts=None, lazy=False):
         if shape == "split":
             for a in parts:
                 rp = hive_cosim.crank(rp, a).runner_payload
+                if plan["run"].get("reinject") and gens is not None:
+                    # a co-simulation user re-injects the (unchanged) generators between two calls: must be neutral
+                    from nrel.hive.runner import runner_payload_ops as rpo
+                    rp = rpo.set_instruction_generators(rp, tuple(rp.u.step_update.ordered_instruction_generators))
         elif shape == "whole":
             rp = hive_cosim.crank(rp, n).runner_payload
         elif shape == "run":
@@ -153,7 +157,7 @@ class C15Driver:
     prop = "C15"
 
     def budget(self, tier):
-        return 600 if tier == "quick" else 10000
+        return 450 if tier == "quick" else 10000
 
     def extra(self, tier, seed):
         return None
@@ -178,6 +182,7 @@ class C15Driver:
             parts = [1, parts[0] - 1] + parts[1:]
         plan["run"]["parts"] = parts
         plan["run"]["flip_lazy"] = r.random() < 0.5
+        plan["run"]["reinject"] = r.random() < 0.5
         return plan
 
     def run_one(self, seed, want_plan=False):
@@ -193,7 +198,7 @@ class C15Driver:
         res = {"seed": seed, "viol": [dict(v) for v in vs[:4]], "stats": {"crank_split": max(0, len(plan["run"]["parts"]) - 1),
                                                                             "lazy_io": int(bool(plan["run"].get("lazy")) or bool(plan["run"].get("flip_lazy"))),
                                                                             "unaligned_interval": int((plan["spec"]["sim"]["end_time"] - plan["spec"]["sim"]["start_time"]) % plan["spec"]["sim"]["timestep_duration_seconds"] != 0),
-                                                                            "zero_step_call": int(0 in plan["run"]["parts"]), "steps": plan["nsteps"] * 4},
+                                                                            "zero_step_call": int(0 in plan["run"]["parts"]), "generators_reinjected": int(bool(plan["run"].get("reinject"))), "stateful_functional_generator": int("ticker" in (plan["run"].get("generators") or [])), "steps": plan["nsteps"] * 4},
                "probes": {}, "sigs": [], "abstract": [], "steps": plan["nsteps"] * 4,
                "sim_s": plan["nsteps"] * 4 * plan["spec"]["sim"]["timestep_duration_seconds"],
                "nontrivial": len(plan["run"]["parts"]) >= 2 and plan["nsteps"] >= 2, "digest": h,
